@@ -401,6 +401,8 @@ def run(ctx):
                         "matches_model_as_written": a_ok, "matches_model_fixed": b_ok, "row_incomplete": r["row_incomplete_count"],
                         "K_max_row_diff": K.get("max_row_diff")})
 
+    nbok = sum(1 for c in cases if by_id.get(c["id"], {}).get("boundary_ok"))
+    ctx.cov["hypothesis_boundary_ok_holds_on_cases"] = "%d/%d" % (nbok, total)
     variant = "as-written" if matchA == total else ("fixed" if matchB == total else "neither")
     ctx.cov.update({"partition_cases": total, "match_model_as_written": matchA, "match_model_fixed": matchB,
                     "implementation_variant": variant, "case_distribution": dist,
